@@ -147,7 +147,7 @@ impl Property for C23Prop {
         "C23"
     }
     fn rule(&self) -> &'static str {
-        "exhaustive: every sequence of length <= 4 (quick) / <= 6 (thorough) over a 10-instruction alphabet on regions {ra, rb} (expression read, write, read-write, read-a-write-b, capture, raw-capture reading one region into the other, no-memory FENCE), each also with a JUMP-WHEN terminator reading ra; random: blocks of 0..14/24 instructions from the C22 generator (RF instructions with memory in expressions and capture targets, all classical operand forms over 3 regions, control flow). Non-trivial = a block contains both a write-after-read and a read-after-write on some region; distinct by program text."
+        "exhaustive: (through the cfg hook) every access sequence of length <= 6/8 over {read, write, capture} x {same node, next node} fed to the dependency queue and compared with the reference bookkeeping; every sequence of length <= 4 (quick) / <= 6 (thorough) over a 10-instruction alphabet on regions {ra, rb} (expression read, write, read-write, read-a-write-b, capture, raw-capture reading one region into the other, no-memory FENCE), each also with a JUMP-WHEN terminator reading ra; random: blocks of 0..14/24 instructions from the C22 generator (RF instructions with memory in expressions and capture targets, all classical operand forms over 3 regions, control flow). Non-trivial = a block contains both a write-after-read and a read-after-write on some region; distinct by program text."
     }
     fn max_words(&self) -> usize {
         500
@@ -157,7 +157,20 @@ impl Property for C23Prop {
     }
     fn run(&self, src: &mut Src, ctx: &Ctx, out: &mut Outcome) -> Check {
         // word 0: mode; direct-mode enumeration uses mode 0 with explicit letters
-        let mode = src.below(2);
+        let mode = src.below(3);
+        if mode == 2 {
+            // the queue itself, through the hook
+            let len = src.below(11);
+            let code = ((src.word() as u64) << 32) | src.word() as u64;
+            let steps = super::queue::decode(code, len, 3);
+            out.set_key(&(2u8, &steps));
+            out.class("queue-direct");
+            out.nontrivial = steps.iter().any(|s| s.1 == 0) && steps.iter().any(|s| s.1 != 0);
+            if ctx.render {
+                out.render = Some(format!("memory queue accesses (node, 0=read 1=write 2=capture): {steps:?}"));
+            }
+            return super::queue::check_memory(&steps);
+        }
         let (program, text) = if mode == 0 {
             let n = src.below(7);
             let letters: Vec<usize> = (0..n).map(|_| src.below(LETTERS)).collect();
@@ -187,6 +200,19 @@ impl Property for C23Prop {
     }
     fn enumerate(&self, tier: Tier, shard: u64, nshards: u64, f: &mut dyn FnMut(Case) -> bool) {
         let mut counter = 0u64;
+        // queue access sequences (kind x same-node flag per step)
+        for len in 0..=tier.pick(6usize, 8usize) {
+            let total = 6u64.pow(len as u32);
+            for code in 0..total {
+                counter += 1;
+                if counter % nshards != shard {
+                    continue;
+                }
+                if !f(Case::direct(vec![2, len as u32, (code >> 32) as u32, code as u32])) {
+                    return;
+                }
+            }
+        }
         for len in 0..=max_len(tier) {
             let total = (LETTERS as u64).pow(len as u32);
             for code in 0..total {
@@ -212,6 +238,6 @@ impl Property for C23Prop {
     }
     fn exhaustive_part(&self, tier: Tier) -> Option<String> {
         let n: u64 = (0..=max_len(tier)).map(|l| 2 * 10u64.pow(l as u32)).sum();
-        Some(format!("all {n} access sequences of length <= {} over the 10-letter alphabet, with and without a reading terminator", max_len(tier)))
+        Some(format!("all dependency-queue access sequences (3 kinds x same/next node) of length <= {}; all {n} program access sequences of length <= {} over the 10-letter alphabet, with and without a reading terminator", tier.pick(6, 8), max_len(tier)))
     }
 }
